@@ -22,7 +22,17 @@ func main() {
 	replay := flag.String("replay", "", "replay file: re-decide only that obligation")
 	noEvidence := flag.Bool("no-evidence", false, "do not write the evidence file")
 	list := flag.Bool("list", false, "list properties")
+	describe := flag.Bool("describe", false, "print the properties' claim texts as JSON")
 	flag.Parse()
+	if *describe {
+		out := map[string]string{}
+		for _, id := range wm.IDs() {
+			out[id] = wm.Lookup(id).Explanation
+		}
+		b, _ := json.MarshalIndent(out, "", " ")
+		fmt.Println(string(b))
+		return
+	}
 	if *list {
 		fmt.Println(strings.Join(wm.IDs(), " "))
 		return
